@@ -1,4 +1,5 @@
 import RadicaleModel.Filter
+import RadicaleProofs.FreeBusy
 /-
   C16 — calendar queries return exactly the matching objects.
   `Filter.Rfc` is RFC 4791 §9.9 written as predicates; the other definitions follow radicale/item/filter.py.
@@ -234,5 +235,59 @@ theorem true_conjunct_invariant (conds : List Bool) (i : Nat) :
   rw [List.all_append, List.all_cons]
   simp only [id, Bool.true_and]
   rw [← List.all_append, List.take_append_drop]
+
+/-! ### free-busy -/
+
+theorem eventRange_start (isDatetime : Bool) (en : EvEnd) (s : Int) : (eventRange isDatetime en s).s = s := by
+  cases en with
+  | dtend od => rfl
+  | duration d => simp only [eventRange]; split <;> rfl
+  | none => simp only [eventRange]; split <;> rfl
+
+/-- the ranges of a recurring event are visited in order of their start -/
+theorem recurring_ranges_sorted (isDatetime : Bool) (en : EvEnd) (s : Int) (period : Int) (hp : 0 ≤ period) (n : Nat) :
+    Sorted ((occurrences s period n).map (eventRange isDatetime en)) := by
+  unfold Sorted
+  rw [List.pairwise_map]
+  have := occurrences_sorted s period hp n
+  apply this.imp
+  intro a b hab
+  rw [eventRange_start, eventRange_start]; exact hab
+
+/-- **free-busy lists exactly the overlapping occurrences.**  For an opaque event whose occurrences are visited
+    in order, and a positive limit `max`: if fewer than `max` occurrences (overrides included) overlap the range,
+    the report lists exactly those, each with its start and end, and nothing else; otherwise it is refused. -/
+theorem freebusy_exact (max : Nat) (hmax : 0 < max) (fs fe : Int) (ovr main : List Range) (hs : Sorted main) :
+    fbEvent true max fs fe ovr main =
+      if ((ovr ++ main).filter (overlaps fs fe)).length < max then some ((ovr ++ main).filter (overlaps fs fe)) else none := by
+  unfold fbEvent
+  simp only [Bool.not_true, Bool.false_eq_true, if_false, hmax, if_true]
+  rw [timeRangeFill_take fs fe (max + 1) (by omega) ovr main hs]
+  by_cases hlt : ((ovr ++ main).filter (overlaps fs fe)).length < max
+  · simp only [hlt, if_true]
+    rw [List.take_of_length_le (by omega)]
+    have : ¬ (((ovr ++ main).filter (overlaps fs fe)).length ≥ max) := by omega
+    rw [if_neg this]
+  · simp only [hlt, if_false]
+    have : (List.take (max + 1) ((ovr ++ main).filter (overlaps fs fe))).length ≥ max := by
+      rw [List.length_take]; omega
+    rw [if_pos this]
+
+/-- applied to a recurring event (DAILY / WEEKLY progression) -/
+theorem freebusy_recurring_event (max : Nat) (hmax : 0 < max) (isDatetime : Bool) (en : EvEnd) (s period : Int) (hp : 0 ≤ period)
+    (n : Nat) (fs fe : Int) (hfew : (((occurrences s period n).map (eventRange isDatetime en)).filter (overlaps fs fe)).length < max) :
+    fbEvent true max fs fe [] ((occurrences s period n).map (eventRange isDatetime en)) =
+      some (((occurrences s period n).map (eventRange isDatetime en)).filter (overlaps fs fe)) := by
+  rw [freebusy_exact max hmax fs fe [] _ (recurring_ranges_sorted isDatetime en s period hp n)]
+  simp only [List.nil_append, hfew, if_true]
+
+/-- transparent events never appear -/
+theorem freebusy_transparent (max : Nat) (fs fe : Int) (ovr main : List Range) : fbEvent false max fs fe ovr main = some [] := by
+  simp [fbEvent]
+
+/-- observation (not a listed finding): with `max_freebusy_occurrence = 0` the limit test `len >= 0` refuses every
+    report on a calendar that has an opaque event -/
+theorem freebusy_limit_zero_refuses (fs fe : Int) (ovr main : List Range) : fbEvent true 0 fs fe ovr main = none := by
+  simp [fbEvent]
 
 end C16
